@@ -60,6 +60,7 @@ def run(check: Check, repo: Repo, tier: str) -> None:
     check.floor("ATTR-MEMO", 1, "object-attribute memos")
     X.collect_guard(check, repo)
     X.source_siblings(check, repo)
+    G.dispatch_loop_break(check, funcs)
     X.handler_nulls(check, repo, repo.package_modules("execution"))
     X.zip_align(check, repo, repo.package_modules("execution"))
     G.sentinel_identity(check, mods)
